@@ -45,6 +45,9 @@ var badPlmns = [][2]string{{"20", "93"}, {"2089", "93"}, {"", "93"}, {"208", "9"
 
 func applyCreateFlags(r *models.ChfConvergedChargingChargingDataRequest, f int64) {
 	r.OneTimeEvent = f&1 != 0
+	// bit 3: the consumer marks the request as a retransmission (the CHF at hand does nothing with the mark: the request is
+	// handled like any other)
+	r.RetransmissionIndicator = f&8 != 0
 	k := int(r.ChargingId)
 	if k < 0 {
 		k = -k
